@@ -52,6 +52,12 @@ func fontFromCase(f []string) (*type1.Font, bool, type1.FileFormat) {
 				{Op: type1.OpLineTo, Args: []float64{20 + 2*fr, 0}}, {Op: type1.OpClosePath}}}
 		}
 	}
+	if f[2] == "zeromatrix" {
+		// a font matrix of zeros (degenerate, but a matrix of finite numbers): written and read back as it is
+		integer = true
+		font = randFont(newRng(seed), true)
+		font.FontInfo.FontMatrix = [6]float64{}
+	}
 	if strings.HasPrefix(f[2], "longstr") {
 		// long text fields with a byte that needs escaping at a chosen offset (a writer that breaks or escapes long
 		// literals in blocks meets its block boundary there)
@@ -103,6 +109,10 @@ func suiteT1rt(o *suiteOut, r *rng, tier string, n int) {
 	}
 	if n > 0 {
 		nr = n
+	}
+	for _, ff := range allFormats {
+		t1rtCase(o, fmt.Sprintf("t1rt 4243 zeromatrix %s", formatName(ff)))
+		o.count("degenerate font matrix")
 	}
 	for _, ff := range allFormats {
 		t1rtCase(o, fmt.Sprintf("t1rt 4242 hvfrac %s", formatName(ff)))
